@@ -112,6 +112,15 @@ def check(rep, an, tier):
                 rep.check("R-SIMPLEX", "vertices are those of the triangulated hull", "P" in cc.flat().data, where=res.fn.loc(),
                           construct="vertex array of the contraction", entry=entry, config=cfg)
             R.rule_type_errors(rep, res, "INDEX", "R-SIMPLEX", entry)
+            # simplex shares are proportional to volume at every scale of the captures: no absolute tolerance on a volume / coordinate
+            for tv in res.events("abs_tolerance"):
+                at = tv.d.get("atol")
+                if tv.d.get("dimensioned") and not (at is not None and at.known and at.const == 0):
+                    rep.violated("R-QTY", "simplex shares do not depend on an absolute tolerance", where=tv.loc, construct=tv.text(), entry=entry,
+                                 config=cfg,
+                                 msg="an absolute tolerance is applied to a quantity that scales with the captures (simplex volumes / coordinates): "
+                                     "for hulls in small units the test fires although the volumes differ, and the samples are no longer drawn "
+                                     "in proportion to volume (not uniform over the hull)")
             if eng is None and v.shape is not None and v.shape.axes:
                 rep.check("R-SHAPE", "exactly n rows (pseudo-random branch)", v.shape.axes[0] == ("NSAMP",), where=res.fn.loc(),
                           construct="shape of the samples", entry=entry, config=cfg, msg=f"computed {v.shape}")
@@ -131,6 +140,7 @@ def check(rep, an, tier):
                     rep.check("R-SHAPE", "exactly n rows (QMC branch)", v.shape.axes[0] == ("NSAMP",), where=res.fn.loc(),
                               construct="shape of the samples", entry=entry, config=cfg, msg=f"computed {v.shape}")
             R.rule_purity(rep, res, entry)
+            R.rule_index_space(rep, res, entry)
             R.rule_no_global_state(rep, res, entry)
             R.rule_dtype_casts(rep, res, entry)
     # dispatch of bad values
@@ -163,6 +173,15 @@ def check(rep, an, tier):
                         vv = bound.get(p)
                         rep.check("R-FORWARD", f"{p} → sample_in_hull({p}=)", vv is not None and p in vv.flat().data, where=ev.loc,
                                   construct=f"sample_in_hull(… {p} …) in {ev.fn.name}", entry=ent, config=res.config)
+                    pv = bound.get("P")
+                    if pv is not None:
+                        have = {o.split("|")[0] for o in pv.flat().data}
+                        for o in ("self.A", "self.lb", "self.ub"):
+                            rep.check("R-FLOW", f"the sampled region is built from {o}", o in have, where=ev.loc,
+                                      construct=f"{o} → sample_in_hull(P, …) in {ev.fn.name}", entry=ent, config=res.config,
+                                      msg=f"the point set handed to the sampler does not depend on {o} (it depends on {sorted(have)}): the samples are "
+                                          f"drawn from a region that is not the gamut of intensities within the registered bounds")
+                CC.vertex_set(rep, res, ent)
                 if l1:
                     back = [ev for ev in res.events("call") if ev.d["callee"].name == "cartesian_to_barycentric" and ev.fn.cls]
                     for ev in back:
@@ -178,6 +197,8 @@ def check(rep, an, tier):
                     CC.zero_rows(rep, res, ent)
                 R.rule_effect_free(rep, res, ent, reg=_reg(an))
                 R.rule_purity(rep, res, ent)
+                R.rule_index_space(rep, res, ent)
+                R.rule_dtype(rep, res, ent)
     rep.advisory("l1 sampling draws in the L1-normalised image of ALL gamut vertices (the cone's cross-section) and rescales to l1; that set "
                  "equals the gamut's slice at total l1 only for small l1 — membership of l1-samples is not decided here (reported by an "
                  "independent run-time probe: 80 % → 0 % in-gamut as l1 grows)")
